@@ -16,8 +16,9 @@ Fixpoint sumRl {A} (f : A -> R) (l : list A) : R := match l with [] => 0 | r :: 
 (* N -> R *)
 Definition RN (n : N) : R := IZR (Z.of_N n).
 
-(* a result takes part in the variance-weighted combination iff it has a non-zero call *)
-Definition live {K : Num} (r : mcres K) : bool := negb (N.eqb (r_nz r) 0).
+(* a result takes part in the variance-weighted combination iff it has a finite (hence non-zero) call;
+   finite_calls <= non_zero_calls, so results without non-zero calls never take part *)
+Definition live {K : Num} (r : mcres K) : bool := negb (N.eqb (r_fin r) 0).
 Definition lives {K : Num} (rs : list (mcres K)) : list (mcres K) := filter live rs.
 
 (* S_i^2 > 0 for the results that take part *)
@@ -120,7 +121,7 @@ Section Counters.
   Lemma wwv_step_counters (a : @wacc K) r :
     w_calls (wwv_step a r) = (w_calls a + r_calls r)%N /\ w_nz (wwv_step a r) = (w_nz a + r_nz r)%N /\
     w_fin (wwv_step a r) = (w_fin a + r_fin r)%N.
-  Proof. unfold wwv_step. destruct (N.eqb (r_nz r) 0); cbn; auto. Qed.
+  Proof. unfold wwv_step. destruct (N.eqb (r_fin r) 0); cbn; auto. Qed.
 
   Lemma wwv_fold_counters rs : forall (a : @wacc K),
     w_calls (fold_left wwv_step rs a) = (w_calls a + sumNl r_calls rs)%N /\
@@ -138,7 +139,7 @@ Section Counters.
   Proof.
     unfold weighted_with_variance.
     destruct (wwv_fold_counters rs (mk_wacc 0 0 0 (zero K) (zero K))) as (H1 & H2 & H3). cbn in H1, H2, H3.
-    rewrite H1, H2, H3. destruct (N.eqb (sumNl r_nz rs) 0); eexists; eexists; reflexivity.
+    rewrite H1, H2, H3. destruct (N.eqb (sumNl r_fin rs) 0); eexists; eexists; reflexivity.
   Qed.
 
   Lemma c13_wwv_counters (rs : list (mcres K)) :
@@ -150,15 +151,15 @@ Section Counters.
   Lemma lives_cons (r : mcres K) rs : lives (r :: rs) = if live r then r :: lives rs else lives rs.
   Proof. reflexivity. Qed.
 
-  Lemma lives_nil_iff (rs : list (mcres K)) : sumNl r_nz rs = 0%N <-> lives rs = [].
+  Lemma lives_nil_iff (rs : list (mcres K)) : sumNl r_fin rs = 0%N <-> lives rs = [].
   Proof.
     induction rs as [|r rs IH]; cbn [sumNl]; [split; reflexivity|]. rewrite lives_cons. unfold live.
-    destruct (N.eqb_spec (r_nz r) 0) as [E|E]; cbn [negb].
+    destruct (N.eqb_spec (r_fin r) 0) as [E|E]; cbn [negb].
     - rewrite E, N.add_0_l. exact IH.
     - split; [lia|discriminate].
   Qed.
 
-  Lemma live_false (r : mcres K) : r_nz r = 0%N -> live r = false.
+  Lemma live_false (r : mcres K) : r_fin r = 0%N -> live r = false.
   Proof. intros H. unfold live. rewrite H. reflexivity. Qed.
 End Counters.
 
@@ -172,7 +173,7 @@ Lemma wwv_stepR (a : @wacc NumR) r :
   wwv_step a r = @mk_wacc NumR (w_calls a + r_calls r) (w_nz a + r_nz r) (w_fin a + r_fin r)
                    (w_est a + (if live r then valR r / varR r else 0)) (w_var a + (if live r then / varR r else 0)).
 Proof.
-  unfold wwv_step, live. destruct (N.eqb (r_nz r) 0); cbn [negb].
+  unfold wwv_step, live. destruct (N.eqb (r_fin r) 0); cbn [negb].
   - f_equal; lra.
   - cbn. f_equal; unfold Rdiv; lra.
 Qed.
@@ -190,12 +191,12 @@ Qed.
 (* the whole function in closed form *)
 Lemma wwv_closed rs :
   wwvR rs =
-  if N.eqb (sumNl r_nz rs) 0
+  if N.eqb (sumNl r_fin rs) 0
   then @mk_result NumR (sumNl r_calls rs) (sumNl r_nz rs) (sumNl r_fin rs) (Swe rs) (sqrt (Sw rs))
   else @mk_result NumR (sumNl r_calls rs) (sumNl r_nz rs) (sumNl r_fin rs) (Swe rs / Sw rs) (sqrt (/ Sw rs)).
 Proof.
   unfold weighted_with_variance. rewrite wwv_foldR. cbn [w_calls w_nz w_fin w_est w_var].
-  rewrite !N.add_0_l. destruct (N.eqb (sumNl r_nz rs) 0); cbn; rewrite !Rplus_0_l; unfold Rdiv; rewrite ?Rmult_1_l; reflexivity.
+  rewrite !N.add_0_l. destruct (N.eqb (sumNl r_fin rs) 0); cbn; rewrite !Rplus_0_l; unfold Rdiv; rewrite ?Rmult_1_l; reflexivity.
 Qed.
 
 Lemma c13_wwv_perm rs rs' : Permutation rs rs' -> wwvR rs = wwvR rs'.
@@ -217,7 +218,7 @@ Lemma c13_wwv_formula rs : pos_var rs -> lives rs <> [] -> calls_ok (sumNl r_cal
   valR (wwvR rs) = Swe rs / Sw rs /\ varR (wwvR rs) = / Sw rs /\ errR (wwvR rs) = sqrt (/ Sw rs).
 Proof.
   intros HP HN HC. rewrite wwv_closed.
-  destruct (N.eqb_spec (sumNl r_nz rs) 0) as [E|E]; [apply lives_nil_iff in E; contradiction|].
+  destruct (N.eqb_spec (sumNl r_fin rs) 0) as [E|E]; [apply lives_nil_iff in E; contradiction|].
   pose proof (Sw_pos rs HP HN) as HS. pose proof (Rinv_0_lt_compat _ HS) as HI.
   assert (V : varR (@mk_result NumR (sumNl r_calls rs) (sumNl r_nz rs) (sumNl r_fin rs) (Swe rs / Sw rs) (sqrt (/ Sw rs))) = / Sw rs).
   { rewrite mk_result_variance by exact HC. apply sqrt_sqrt. lra. }
@@ -276,11 +277,11 @@ Proof.
   split; [exact L|]. unfold error. cbn. apply sqrt_le_1_alt. exact L.
 Qed.
 
-(* results without a non-zero call: only the counters change *)
-Lemma c13_wwv_skips_empty rs1 r0 rs2 : r_nz r0 = 0%N ->
+(* results without a finite call (in particular: without a non-zero call): only the counters change *)
+Lemma c13_wwv_skips_empty rs1 r0 rs2 : r_fin r0 = 0%N ->
   exists c nz f e s,
     wwvR (rs1 ++ rs2) = @mk_result NumR c nz f e s /\
-    wwvR (rs1 ++ r0 :: rs2) = @mk_result NumR (c + r_calls r0) nz (f + r_fin r0) e s /\
+    wwvR (rs1 ++ r0 :: rs2) = @mk_result NumR (c + r_calls r0) (nz + r_nz r0) f e s /\
     c = sumNl r_calls (rs1 ++ rs2) /\ nz = sumNl r_nz (rs1 ++ rs2) /\ f = sumNl r_fin (rs1 ++ rs2) /\
     ((1 <= c)%N -> valR (wwvR (rs1 ++ r0 :: rs2)) = valR (wwvR (rs1 ++ rs2))) /\
     (calls_ok c -> calls_ok (c + r_calls r0) ->
@@ -290,17 +291,30 @@ Proof.
   assert (P : Permutation (rs1 ++ r0 :: rs2) (r0 :: rs1 ++ rs2)) by (apply Permutation_sym, Permutation_middle).
   rewrite (c13_wwv_perm _ _ P). set (rs := rs1 ++ rs2).
   assert (E : exists e s, wwvR rs = @mk_result NumR (sumNl r_calls rs) (sumNl r_nz rs) (sumNl r_fin rs) e s /\
-                          wwvR (r0 :: rs) = @mk_result NumR (sumNl r_calls rs + r_calls r0) (sumNl r_nz rs) (sumNl r_fin rs + r_fin r0) e s).
+                          wwvR (r0 :: rs) = @mk_result NumR (sumNl r_calls rs + r_calls r0) (sumNl r_nz rs + r_nz r0) (sumNl r_fin rs) e s).
   { rewrite !wwv_closed. cbn [sumNl]. rewrite H0, N.add_0_l.
     assert (L : lives (r0 :: rs) = lives rs) by (rewrite lives_cons, (live_false r0 H0); reflexivity).
-    unfold Swe, Sw. rewrite L. rewrite (N.add_comm (r_calls r0)), (N.add_comm (r_fin r0)).
-    destruct (N.eqb (sumNl r_nz rs) 0); eexists; eexists; split; reflexivity. }
+    unfold Swe, Sw. rewrite L. rewrite (N.add_comm (r_calls r0)), (N.add_comm (r_nz r0)).
+    destruct (N.eqb (sumNl r_fin rs) 0); eexists; eexists; split; reflexivity. }
   destruct E as (e & s & E1 & E2).
   exists (sumNl r_calls rs), (sumNl r_nz rs), (sumNl r_fin rs), e, s.
   split; [exact E1|]. split; [exact E2|]. split; [reflexivity|]. split; [reflexivity|]. split; [reflexivity|].
   rewrite E1, E2. split.
   - intros Hc. rewrite !mk_result_value by lia. reflexivity.
   - intros C1 C2. unfold error. rewrite !mk_result_variance by assumption. split; reflexivity.
+Qed.
+
+(* the same in the words of the property: a result without non-zero calls (finite_calls <= non_zero_calls
+   holds for every result the library produces) *)
+Lemma c13_wwv_skips_no_nonzero rs1 r0 rs2 : r_nz r0 = 0%N -> (r_fin r0 <= r_nz r0)%N ->
+  exists c nz f e s,
+    wwvR (rs1 ++ rs2) = @mk_result NumR c nz f e s /\
+    wwvR (rs1 ++ r0 :: rs2) = @mk_result NumR (c + r_calls r0) nz f e s /\
+    c = sumNl r_calls (rs1 ++ rs2) /\ nz = sumNl r_nz (rs1 ++ rs2) /\ f = sumNl r_fin (rs1 ++ rs2).
+Proof.
+  intros Hz Hle. assert (H0 : r_fin r0 = 0%N) by lia.
+  destruct (c13_wwv_skips_empty rs1 r0 rs2 H0) as (c & nz & f & e & s & E1 & E2 & Hc & Hn & Hf & _).
+  exists c, nz, f, e, s. rewrite Hz, N.add_0_r in E2. auto.
 Qed.
 
 (** ** weighted_equally *)
@@ -591,7 +605,7 @@ End Binwise.
 Definition ex_r1 : mcres NumR := @mk_result NumR 100 100 100 1 1.          (* E = 1, S^2 = 1   *)
 Definition ex_r2 : mcres NumR := @mk_result NumR 300 200 250 3 (/ 2).      (* E = 3, S^2 = 1/4 *)
 Definition ex_r3 : mcres NumR := @mk_result NumR 50 50 50 5 2.             (* E = 5, S^2 = 4   *)
-Definition ex_r0 : mcres NumR := @mk_mcres NumR 10 0 0 0 0.                (* no non-zero call *)
+Definition ex_r0 : mcres NumR := @mk_mcres NumR 10 3 0 0 0.                (* no finite call *)
 
 Lemma ex_ok n : (2 <= n < 1000)%N -> calls_ok n.
 Proof. unfold calls_ok, two64. lia. Qed.
@@ -606,8 +620,8 @@ Qed.
 Lemma ex_lives : lives [ex_r1; ex_r0; ex_r2] = [ex_r1; ex_r2].
 Proof.
   unfold lives. cbn [filter]. unfold live.
-  destruct (@mk_result_counters NumR 100 100 100 1 1) as (_ & E1 & _).
-  destruct (@mk_result_counters NumR 300 200 250 3 (/ 2)) as (_ & E2 & _).
+  destruct (@mk_result_counters NumR 100 100 100 1 1) as (_ & _ & E1).
+  destruct (@mk_result_counters NumR 300 200 250 3 (/ 2)) as (_ & _ & E2).
   unfold ex_r1, ex_r2. rewrite E1, E2. reflexivity.
 Qed.
 
